@@ -457,6 +457,21 @@ func c12Run(e *core.Env) {
 			}
 		}
 	}
+	// high precisions on the arguments that take Ln's power series (|z-1| <= 0.1 after scaling: the edges 0.9, 1.1 and
+	// inside) and on arguments next to them: the number of series terms grows with the precision
+	for hi, hx := range []DecJ{{Coef: "9", Exp: -1}, {Coef: "11", Exp: -1}, {Coef: "905", Exp: -2}, {Coef: "105", Exp: -2}, {Coef: "93", Exp: -2}, {Coef: "1099", Exp: -3}, {Coef: "89", Exp: -2}, {Coef: "111", Exp: -2}} {
+		idx++
+		if !e.Mine(idx) {
+			continue
+		}
+		_ = hi
+		e.State()
+		for _, p := range []uint32{60, 110, 130, 150, 200} {
+			cc := MkCtx(p, -6143, 6144, apd.RoundHalfEven, 0)
+			run("Ln", hx.Op(), nil, cc)
+			run("Log10", hx.Op(), nil, cc)
+		}
+	}
 	// constant tables: one operand per level, p = 2^i, 2^i +- 1 up to the length of the constants
 	var tp []uint32
 	maxp := uint32(300)
@@ -592,9 +607,9 @@ func init() {
 		Rule:  "every (function, operands, precision, exponent range, mode) point of the product is executed and compared with a high-precision real reference (big.Float, own ln 2 / ln 10 by atanh series, explicit relative error bound; precision doubled until the one-ulp question is decided, otherwise counted as undecided and never reported); exact-by-definition cases exactly; overflow/underflow reports only if the exact value lies outside the range; non-trivial = operand inside the function's domain",
 		Bounds: func(tier string) string {
 			if tier == "thorough" {
-				return "Exp/Ln/Log10 on DENSE(3,4) + SHAPE(12) x p = 1..9 (each operand under a rotating (exponent range, mode) pair out of 8 ranges incl. [0,9], [-1,5], [-3,9], [-1000,50], [-128,96] x 6 modes, every pair reached), Ln/Log10 arguments 10^k(1+-10^-j) j<=14 |k|<=6, tight ranges [0,9] and [-1,5] at p in {1,2} x {half_even, floor} on every c*10^e, c<1000, e in {-2,0}; Ln/Log10 of {1,3,97}E+-{44,50,100,440,5000} under ranges [-E,E], E in 1..3; Exp arguments {10^-j, 22.9p, 23p, 23p+1, +-130..2000, 22999..23001, 230258, 230259} at p in 1..9,16,34,60; constant tables: p = 2^i, 2^i+-1 up to 2200 through Ln and Log10; Pow on selected DENSE(3,3) x {integers -12..12, 20 fractions} x p in {1,2,3,5,9}"
+				return "Exp/Ln/Log10 on DENSE(3,4) + SHAPE(12) x p = 1..9 (each operand under a rotating (exponent range, mode) pair out of 8 ranges incl. [0,9], [-1,5], [-3,9], [-1000,50], [-128,96] x 6 modes, every pair reached), Ln/Log10 arguments 10^k(1+-10^-j) j<=14 |k|<=6, tight ranges [0,9] and [-1,5] at p in {1,2} x {half_even, floor} on every c*10^e, c<1000, e in {-2,0}; Ln/Log10 of {1,3,97}E+-{44,50,100,440,5000} under ranges [-E,E], E in 1..3; Exp arguments {10^-j, 22.9p, 23p, 23p+1, +-130..2000, 22999..23001, 230258, 230259} at p in 1..9,16,34,60; Ln/Log10 of 0.9, 1.1, 9.05, 1.05, 0.93, 1.099, 0.89, 1.11 at p in {60,110,130,150,200}; constant tables: p = 2^i, 2^i+-1 up to 2200 through Ln and Log10; Pow on selected DENSE(3,3) x {integers -12..12, 20 fractions} x p in {1,2,3,5,9}"
 			}
-			return "Exp/Ln/Log10 on selected DENSE(3,4) + SHAPE(8) x p = 1..9 (each operand under a rotating (exponent range, mode) pair out of 6 ranges incl. [0,9], [-3,9], [-1000,50], [-128,96] x 6 modes, every pair reached), Ln/Log10 arguments 10^k(1+-10^-j) j<=8 |k|<=3, Exp argument family (10^-j, 22.9p, 23p, 23p+1, +-130..2000, 22999..10^6) at p in 1..9,16,34; tight ranges [0,9] and [-1,5] at p in {1,2} x {half_even, floor} on every c*10^e, c<1000, e in {-2,0}; Ln/Log10 of {1,3,97}E+-{44,50,100,440,5000} under ranges [-E,E], E in 1..3; constant tables up to p = 257; Pow on ~60 bases x 45 exponents x alternating p in {1,2,3,5,9}"
+			return "Exp/Ln/Log10 on selected DENSE(3,4) + SHAPE(8) x p = 1..9 (each operand under a rotating (exponent range, mode) pair out of 6 ranges incl. [0,9], [-3,9], [-1000,50], [-128,96] x 6 modes, every pair reached), Ln/Log10 arguments 10^k(1+-10^-j) j<=8 |k|<=3, Exp argument family (10^-j, 22.9p, 23p, 23p+1, +-130..2000, 22999..10^6) at p in 1..9,16,34; tight ranges [0,9] and [-1,5] at p in {1,2} x {half_even, floor} on every c*10^e, c<1000, e in {-2,0}; Ln/Log10 of {1,3,97}E+-{44,50,100,440,5000} under ranges [-E,E], E in 1..3; Ln/Log10 of 0.9, 1.1, 9.05, 1.05, 0.93, 1.099, 0.89, 1.11 at p in {60,110,130,150,200}; constant tables up to p = 257; Pow on ~60 bases x 45 exponents x alternating p in {1,2,3,5,9}"
 		},
 		Run:    c12Run,
 		Replay: c12Replay,
